@@ -650,7 +650,29 @@ MERKLE = dict(
     assumptions=["sha3 collision freedom (symbolic hashing in the specification)", "leaf hashes are pairwise distinct"],
 )
 
-FAMILIES = {"C01": MPT, "C02": MPT, "C14": MPT, "C06": SC, "C07": SC, "C08": C08, "C03": ROUNDS, "C04": ROUNDS, "C05": ROUNDS, "C17": SYNC, "C16": C16, "C09": WMPT, "C11": WMPT, "C13": WMPT, "C10": PROOF, "C12": WPATH, "C15": CODEC, "C20": LOGRING, "C19": MERKLE}
+# ----------------------------------------------------------------------------- family: currency (C18)
+
+CURRENCY = dict(
+    name="currency", component="currency", trace_module="CurrencyTrace", trace_cfg="CurrencyTrace.cfg",
+    design={"quick": [("Currency", "Currency_MC.cfg")], "thorough": [("Currency", "Currency_MC8.cfg")]},
+    mutants={"quick": [("Currency", "Currency_mut.cfg", "MulExact")], "thorough": [("Currency", "Currency_mut.cfg", "MulExact")]},
+    exec_args=lambda tier, seed: (["-n", 40] if tier == "quick" else ["-n", 1500]),
+    flags={"C18": {"panic", "inexact"}},
+    distinct=lambda s: s.get("distinct_helper_outcomes", 0),
+    rule="calls = every exported helper of package currency on the boundary lattice of 64-bit operands (0, 1, 2^k, 2^k+-1 for all k, "
+         "sqrt and max boundaries, pairs with product = 0 mod 2^64, signed operands incl. negatives, zero and MinInt64, floats: +-0, "
+         "subnormals, 2^53+-1, 2^63, 2^64 and neighbours, 1e19, 1e30, 1e300, NaN, +-Inf, decimals with 0-12 fractional digits) plus "
+         "seeded random operands; TLC recomputes every result with base-10^4 limb arithmetic; distinct_nontrivial = distinct "
+         "(helper, outcome class) pairs",
+    summary_keys=["panics", "errors", "oks"],
+    ops_of=lambda ev: dict(event=ev[0]),
+    assumptions=["IEEE-754 products, the exact integer part of a float and its shortest round-trip decimal are taken from the Go "
+                 "runtime (float64 arithmetic, math/big, strconv)",
+                 "ParseZCN of an amount in (MaxInt64, MaxUint64] may fail or succeed exactly",
+                 "Coin.Float64 is judged for: no panic, no error, exact below 2^53, integer-valued"],
+)
+
+FAMILIES = {"C01": MPT, "C02": MPT, "C14": MPT, "C06": SC, "C07": SC, "C08": C08, "C03": ROUNDS, "C04": ROUNDS, "C05": ROUNDS, "C17": SYNC, "C16": C16, "C09": WMPT, "C11": WMPT, "C13": WMPT, "C10": PROOF, "C12": WPATH, "C15": CODEC, "C20": LOGRING, "C19": MERKLE, "C18": CURRENCY}
 PROPS = dict(FAMILIES)
 
 
